@@ -7,6 +7,7 @@ import (
 	"os"
 	"strings"
 
+	"github.com/Ptt-official-app/go-pttbbs/cache"
 	"github.com/Ptt-official-app/go-pttbbs/ptttype"
 
 	"verifharness/internal/hx"
@@ -397,6 +398,9 @@ func generate() {
 	r := run.R
 	thorough := run.Thorough()
 
+	// 00. a restarted daemon finds BBusyState left set by a loader that died: the table must still be loaded
+	busyCases(thorough)
+
 	// 0a. class boards in every slot, the last one included; sub-classes under a class (smallest tables first, so that
 	// the first failure of a run is a short history)
 	classTables()
@@ -634,13 +638,38 @@ func classTables() {
 	do(fmt.Sprintf("fpage %d 1", maxBoard))
 }
 
+// busyCases: `busy 1` stands for the dead loader; the following reset (ReloadBCache waits 10 x 1 s, then loads) must
+// give the table of .BRD, sorted orders and a released flag; lookups and listings are then judged as usual.
+func busyCases(thorough bool) {
+	// quick tier: the case is run from corpus/C11/busy-flag-r6-1.ops (each case waits 10 s)
+	var cases [][2][]board
+	if thorough {
+		cases = append(cases, [2][]board{plain("old1", "old2", "old3"), plain("b", "a", "c", "")})
+		cases = append(cases, [2][]board{nil, plain("x", "y")}, [2][]board{plain("p", "q"), nil},
+			[2][]board{decorate(randomTable(40), false), decorate(randomTable(25), false)})
+	}
+	for _, c := range cases {
+		resetTable(c[0])
+		cache.Shm.Shm.BBusyState = 1 // the dead loader; recorded in the reset line as the token `busy`
+		resetTable(c[1])
+		do("bid " + hexs("a"))
+		do("bid " + hexs("old1"))
+		do("find name asc " + hexs("0"))
+		do("walk name asc 1")
+		do("walk class desc 2")
+		do("fwalk 1")
+		// whatever happened: the operator's remedy, so that the rest of the run is not slowed down by a flag left set
+		do("busy 0")
+	}
+}
+
 func malformed() {
 	resetTable(plain("a", "ab", "b"))
 	for _, l := range []string{
 		"", "bid", "bid zz", "bid 6", "bid 61 62", "find", "find name up 61", "find name asc", "find name asc 6g", "find class asc 61",
 		"find class asc 61 zz", "find class sideways 61 61", "find title asc 61", "ac asc", "ac up 61", "ac asc 6", "page name asc 2", "page name asc x -",
 		"page name asc 2 61", "page name asc 2 61:62:63", "page title asc 2 -", "page name asc 2 zz:61", "apage asc 2 61", "apage asc 2 6 -",
-		"fwalk", "fwalk x", "fpage 1", "fpage x 1", "children 1", "children x name", "children 1 title", "fwalk 0", "fwalk -1", "fpage 1 0", "fpage 1 -1", "fpage 1 -2",
+		"busy", "busy 2", "busy x", "fwalk", "fwalk x", "fpage 1", "fpage x 1", "children 1", "children x name", "children 1 title", "fwalk 0", "fwalk -1", "fpage 1 0", "fpage 1 -1", "fpage 1 -2",
 		"reset 100 13 61000000000000000000000000:6161616120a1b778:0:x:0 0 0", "reset 100 13 61000000000000000000000000:6161616120a1b778:0:1 0 0",
 		"walk name asc", "walk name asc 1.5", "walk nam asc 1", "awalk asc 1", "awalk asc 1 6", "reset", "reset 100 13 zz - -",
 		"reset 100 13 61:62 - -", "reset x 13 - - -", "frobnicate 1 2",
